@@ -15,6 +15,8 @@ def nontrivial(engine, opline):
     if engine == 'feemarket':
         # non-trivial: positive base fee and gas consumption different from 0
         return len(t) == 5 and t[1] != '0' and t[3] != '0'
+    if engine == 'statedb':
+        return bool(t) and not t[0].startswith('w.') and t[0] != 'new'
     return True
 
 
@@ -28,6 +30,16 @@ def divergence_matches(finding, engine, d):
 
 
 PROPS = {
+    'C03': dict(
+        lean_modules=['Model.CDbGeneric', 'Model.World', 'Model.StateDB', 'Proofs.CDb', 'Properties.C03'],
+        facts=['*'],
+        theorems=['C03_revert_exact', 'C03_no_trace', 'C03_ids_stable', 'C03_calltree', 'C03_vmerr_residue',
+                  'execNode_spec', 'execList_spec', 'framed_run', 'revertGo_frame', 'revert_ok', 'snapshot_ok', 'upd_ok'],
+        engines=[dict(name='statedb', test='TestEngineStatedb', quick=6000, thorough=120000, thorough_seeds=3)],
+        rule='random cStateDb API sequences (19 op kinds incl. precompile-style bank/allowance writes through GetCurrentContext, nested snapshot/revert incl. invalid ids, commit) on a real chain context with base/contract/module/vesting fixtures; full getter dump after every op; non-trivial = a real op line (not world set-up); distinct by (op line) hash',
+        assumptions=['cachekv CacheContext is a value copy of its parent for reads and isolates writes until write() (SDK contract; exercised by every revert in E-statedb)',
+                     'the interpreter uses the StateDB only as snapshot; body; revert-on-failure (evm.Call/Create) — call-tree theorem; arbitrary API sequences are covered by C03_revert_exact'],
+    ),
     'C09': dict(
         lean_modules=['Model.FeeMarket', 'Properties.C09', 'Facts.C09'],
         facts=['*'],
